@@ -335,9 +335,16 @@ async fn run_case(case: Vec<String>) -> String {
                 let taken = acceptor.lock().await.take();
                 drop(taken);
             }
+            "ackf" => {
+                // ACK for a non-2xx final: same branch as the INVITE, absorbed by the server transaction
+                let text = indialog("ACK", invite_cseq, invite_branch, &local_tag, "");
+                inject(&endpoint, &text, source, &tp);
+            }
             "cancel" => {
                 let variant = a.get(1).map(|s| s.as_str()).unwrap_or("");
-                let branch = if variant == "x" { "z9hG4bKother" } else { invite_branch };
+                req_counter += 1;
+                let other = format!("z9hG4bKother{}", req_counter);
+                let branch = if variant == "x" { other.as_str() } else { invite_branch };
                 let cseq = if variant == "c" { invite_cseq + 1 } else { invite_cseq };
                 let text = indialog("CANCEL", cseq, branch, "", "");
                 inject(&endpoint, &text, source, &tp);
